@@ -78,7 +78,7 @@ func (C05) Generate(r *rand.Rand, tier string, idx int) *drv.Scenario {
 			g.Steps[i].Val = `"` + g.Steps[i].Val + `"`
 		}
 	}
-	sc := &drv.Scenario{Family: fam, Knobs: baseKnobs(r), Steps: g.Steps}
+	sc := &drv.Scenario{Family: fam, Knobs: baseKnobs(r), Steps: g.Steps, Fixed: g.Fixed}
 	sc.Knobs.SchedSeed |= 1
 	return sc
 }
